@@ -13,6 +13,7 @@ record of every access (nothing is ever asked of PSyclone's objects)::
                   {"f": 2, "acc": "gh_read", "space": "w3",
                    "st": "xory1d", "ext": "ext0", "dir": "y_direction"}]},
         {"kind": "builtin", "name": "setval_x", "fields": [0, 3]}],
+     "vectors": {"2": 3},                # f2 is a field vector of size 3
      "extents": {"ext0": 1},             # run-time values of extent variables
      "annexed": false}                   # COMPUTE_ANNEXED_DOFS
 
@@ -83,6 +84,11 @@ def compatible(meta, actual):
     return False
 
 
+def vector_size(spec, fld):
+    """Size of field vector `fld` (1 = plain field)."""
+    return int(spec.get("vectors", {}).get(str(fld), 1))
+
+
 def valid_spec(spec):
     """Reason why the spec is outside the documented domain, or None."""
     # pylint: disable=too-many-return-statements, too-many-branches
@@ -92,11 +98,16 @@ def valid_spec(spec):
     for space in spec["fields"]:
         if space not in CONTINUOUS + DISCONTINUOUS:
             return "bad actual space"
+    for key, size in spec.get("vectors", {}).items():
+        if not (key.isdigit() and 0 <= int(key) < nfld and 2 <= size <= 3):
+            return "bad vector"
     for call in spec["calls"]:
         if call["kind"] == "builtin":
             if call["name"] not in BUILTINS:
                 return "unknown builtin"
             flds = call["fields"]
+            if any(vector_size(spec, f) > 1 for f in flds):
+                return "vector passed to a builtin"
             if len(flds) != BUILTINS[call["name"]][2]:
                 return "builtin arity"
             if len(set(flds)) != len(flds):
@@ -158,7 +169,7 @@ def valid_spec(spec):
 # --------------------------------------------------------------------------
 # sources
 # --------------------------------------------------------------------------
-def kernel_source(name, args):
+def kernel_source(name, args, sizes=None):
     lines = [f"module {name}_mod",
              "  use argument_mod", "  use fs_continuity_mod",
              "  use kernel_mod", "  use constants_mod",
@@ -168,7 +179,9 @@ def kernel_source(name, args):
     for idx, arg in enumerate(args):
         sep = ", &" if idx + 1 < len(args) else "  &"
         sten = f", stencil({arg['st']})" if arg.get("st") else ""
-        lines.append(f"          arg_type(gh_field, gh_real, {arg['acc']}, "
+        size = sizes[idx] if sizes else 1
+        kind = f"gh_field*{size}" if size > 1 else "gh_field"
+        lines.append(f"          arg_type({kind}, gh_real, {arg['acc']}, "
                      f"{arg['space']}{sten}){sep}")
     lines += ["          /)",
               "     integer :: operates_on = cell_column",
@@ -197,8 +210,9 @@ def algorithm_source(spec):
             lines.append(f"  use {kernel_name(idx)}_mod, only: "
                          f"{kernel_name(idx)}_type")
     lines.append("  implicit none")
-    lines.append("  type(field_type) :: " +
-                 ", ".join(f"f{i}" for i in range(nfld)))
+    lines.append("  type(field_type) :: " + ", ".join(
+        f"f{i}({vector_size(spec, i)})" if vector_size(spec, i) > 1
+        else f"f{i}" for i in range(nfld)))
     for name in sorted(spec.get("extents", {})):
         lines.append(f"  integer(i_def) :: {name}")
     lines.append("  call invoke( &")
@@ -231,7 +245,9 @@ def write_sources(dirname, spec):
         if call["kind"] == "kern":
             path = os.path.join(dirname, f"{kernel_name(idx)}_mod.f90")
             with open(path, "w") as fout:
-                fout.write(kernel_source(kernel_name(idx), call["args"]))
+                fout.write(kernel_source(
+                    kernel_name(idx), call["args"],
+                    [vector_size(spec, a["f"]) for a in call["args"]]))
     alg = os.path.join(dirname, "c22_alg.f90")
     with open(alg, "w") as fout:
         fout.write(algorithm_source(spec))
@@ -277,7 +293,8 @@ def call_records(spec):
 # Hypothesis strategy
 # --------------------------------------------------------------------------
 @st.composite
-def invoke_specs(draw, max_calls=5, stencil_types=None, builtins=True):
+def invoke_specs(draw, max_calls=5, stencil_types=None, builtins=True,
+                 vectors_ok=True):
     """Specs of 1-5 calls over 2-5 fields."""
     # pylint: disable=too-many-locals, too-many-branches, too-many-statements
     stencil_types = stencil_types or STENCILS
@@ -288,6 +305,11 @@ def invoke_specs(draw, max_calls=5, stencil_types=None, builtins=True):
     pool = draw(st.permutations(CONTINUOUS))[:ncont] + \
         draw(st.permutations(DISCONTINUOUS))[:ndisc]
     fields = [draw(st.sampled_from(pool)) for _ in range(nfld)]
+    vectors = {}
+    if vectors_ok and draw(st.integers(0, 3)) == 0:
+        for fld in range(nfld):
+            if draw(st.integers(0, 2)) == 0:
+                vectors[str(fld)] = draw(st.integers(2, 3))
     ncall = draw(st.integers(1, max_calls))
     extents = {}
     calls = []
@@ -297,8 +319,9 @@ def invoke_specs(draw, max_calls=5, stencil_types=None, builtins=True):
             arity = BUILTINS[name][2]
             first = draw(st.integers(0, nfld - 1))
             same = [i for i in range(nfld)
-                    if fields[i] == fields[first] and i != first]
-            if len(same) >= arity - 1:
+                    if fields[i] == fields[first] and i != first
+                    and str(i) not in vectors]
+            if len(same) >= arity - 1 and str(first) not in vectors:
                 others = draw(st.permutations(same))[:arity - 1]
                 calls.append({"kind": "builtin", "name": name,
                               "fields": [first] + list(others)})
@@ -359,5 +382,8 @@ def invoke_specs(draw, max_calls=5, stencil_types=None, builtins=True):
     used = {a["ext"] for c in calls if c["kind"] == "kern"
             for a in c["args"] if isinstance(a.get("ext"), str)}
     extents = {k: v for k, v in extents.items() if k in used}
-    return {"fields": fields, "calls": calls, "extents": extents,
+    spec = {"fields": fields, "calls": calls, "extents": extents,
             "annexed": draw(st.booleans())}
+    if vectors:
+        spec["vectors"] = vectors
+    return spec
